@@ -148,7 +148,7 @@ def run_leg(prop, tier, seed, leg, bins, logdir):
             cmd += ["--workers", str(leg["workers"])]
         env = dict(ENV)
         if flavour == "race":
-            env["GORACE"] = "halt_on_error=0 log_path=%s" % race_prefix
+            env["GORACE"] = "halt_on_error=0 exitcode=0 log_path=%s" % race_prefix
         env.update(leg.get("env", {}))
         env["VERIF_LOGDIR"] = logdir
         p = subprocess.Popen(cmd, cwd=VERIF, env=env, stdout=open(outf, "w"), stderr=open(errf, "w"))
@@ -355,7 +355,7 @@ def replay(prop, path):
         return 2
     env = dict(ENV)
     if flavour == "race":
-        env["GORACE"] = "halt_on_error=1"
+        env["GORACE"] = "halt_on_error=0 exitcode=1"
     p = subprocess.run([exe, prop, "--replay", path], cwd=VERIF, env=env)
     if p.returncode == 1:
         print("VIOLATION property=%s replay=%s" % (prop, path))
